@@ -169,7 +169,14 @@ def build_model(prop, timeout=900):
             f.write("open Model\n")
             f.write(open(os.path.join(OCAML, "common", "prelude.ml")).read())
             f.write("\n")
-            f.write(open(os.path.join(OCAML, p, "driver.ml")).read())
+            drv = open(os.path.join(OCAML, p, "driver.ml")).read()
+            # a driver may ask for shared readers with a first-line marker:  (* include: gqlread *)
+            m = re.match(r"\(\* include: ([a-z_, ]+) \*\)", drv)
+            if m:
+                for inc in [x.strip() for x in m.group(1).split(",")]:
+                    f.write(open(os.path.join(OCAML, "common", inc + ".ml")).read())
+                    f.write("\n")
+            f.write(drv)
         rc, out2 = sh("ocamlfind ocamlopt -w -a -package str,unix -linkpkg model.mli model.ml main.ml -o %s" % exe,
                       cwd=bdir, timeout=timeout)
         return rc == 0, out + out2
